@@ -64,6 +64,10 @@ def corpus(rng, n_each):
         items.append(('render', c06.gen_statement(rng), rng.choice(['mysql', 'postgres', 'sqlite'])))
     for s in ['select cast(a as foo) from t', 'select count(a, b) from t', 'create table t (a serial)', 'select * from t1 right join t2 on t1.a=t2.a']:
         items.append(('render', s, 'mysql'))
+    for s in ['select date, t.level, size as user from db.comment t where number > 1 order by mode', 'select `index`, `option`, uid from public.resource',
+              'select a from t']:
+        for d in ('oracle', 'Snowflake', 'mssql', 'postgresql', 'oracle'):
+            items.append(('render', s, d))
     # the same table name with different definitions, several dialects: nothing may be remembered between calls
     for s in ['create table mydb.persons (id int primary key, name text)', 'create table mydb.persons (location_id int, num int, name text)',
               'create table mydb.persons (a serial, b int)', 'create table persons (x int)', 'drop table mydb.persons', 'create table mydb.persons (id int)']:
